@@ -835,7 +835,7 @@ def s3c_queue_items_immutable(chk: Check, proj: Project, w) -> None:
 
 
 MANIFEST = {
-    "text": "Decides, for every exceptional CFG edge of the render functions, that each per-render registry entry and stack push has a release attempt before the exception leaves the library (same function, in-package context-manager exit, or every caller), that the tree-level error handler releases every id-keyed registry, that new global state cannot be added silently, and that handlers re-raise the caught exception without computing on its payload. This is the fault-point quantifier of the property expressed as a path property; it does not measure memory or run renders. Also: no live iteration over a registry that the loop body shrinks, queue records are not mutated in place, the component path is stored on the exception (no update of a throw-away default) and the message's first line is stripped only when it is the library's own prefix; exception payload locals are tracked flow-sensitively. Round 4: release functions return early only on a test of their own key; the error sweep releases every registry for every id unconditionally. Round 5: the release loop over providers is complete (no break / return). Round 6: the tree-level sweep runs on the normal path too (finally), F47.",
+    "text": "Decides, for every exceptional CFG edge of the render functions, that each per-render registry entry and stack push has a release attempt before the exception leaves the library (same function, in-package context-manager exit, or every caller), that the tree-level error handler releases every id-keyed registry, that new global state cannot be added silently, and that handlers re-raise the caught exception without computing on its payload. This is the fault-point quantifier of the property expressed as a path property; it does not measure memory or run renders. Also: no live iteration over a registry that the loop body shrinks, queue records are not mutated in place, the component path is stored on the exception (no update of a throw-away default) and the message's first line is stripped only when it is the library's own prefix; exception payload locals are tracked flow-sensitively. Round 4: release functions return early only on a test of their own key; the error sweep releases every registry for every id unconditionally. Round 5: the release loop over providers is complete (no break / return). Round 6: the tree-level sweep runs on the normal path too (finally), F47. Round 7: user-code calls of the tree loop run under the component path (F50); the id leaves the id table unconditionally; a handler that raises a NEW instance of the caught class is not a re-raise; the resolved flag is stored last (shared with C16-S4).",
     "note": "Trusted: cleanup code in except/finally does not itself fail; listed builtin container operations are total; Django's Context.update()/push() used in `with` pop on exit. Not decided: weak-reference unreachability, measured growth, that the guard inside a release attempt is true at run time.",
     "technique": "static acquire/release pairing over a CFG with exceptional edges, function summaries and caller lifting; global-state inventory; handler identity/purity rules",
 }
